@@ -223,7 +223,10 @@ def judge (l : Line) (out : List String) : String := Id.run do
       | _ => pure ()
       if resI ≠ want then
         if resI == "ok!" && want == "ok" then
-          v := v.add (.viol "first-resolution-never-visible-on-both-routers") s!"step {step}:"
+          let what := match op with
+            | .upd _ _ => "polled-contract-change-never-visible-on-both-routers"
+            | _ => "first-resolution-never-visible-on-both-routers"
+          v := v.add (.viol what) s!"step {step}:"
         else v := v.add (.viol s!"add-remove-result:impl={resI},spec={want}") s!"step {step}:"
     -- the probes
     let model := expectAll l d
